@@ -15,6 +15,7 @@ for every key (run-time values); fairness of the random start.
 import ast
 
 from ..model import self_attr, unparse, walk_body_shallow
+from .util import *  # noqa: F401,F403
 from .util import reaching_defs, at, const_value, expand, module_const, call_name, call_recv, calls_in, need, node_assign_value, norm, where
 
 TECHNIQUE = "bit-width abstract interpretation of pure_murmur2, constant-table agreement, purity/effect analysis, " \
@@ -288,7 +289,8 @@ def run(ctx):
     extra = [n for n in cs.nodes if any(call_name(c) == "next" for c in n.calls())]
     ok = len(cyc) == 1 and norm(expand(prog, sp, node_assign_value(cyc[0], "iterpart"), calls=True)) == "cycle(%s)" % sp.params[1] and len(key) == 1 and \
         norm(expand(prog, sp, node_assign_value(key[0], "partitions"), calls=True)) == "sorted(%s)" % sp.params[1] and all(
-            ("self.randomStart", True) in fs[n.id] and norm(at(ctx, sp, n.id, c.args[0])) == "self.iterpart" for n in extra for c in n.calls() if call_name(c) == "next")
+            ("self.randomStart", True) in fs[n.id] and norm(at(ctx, sp, n.id, c.args[0])) in aliases_of(sp, "self.iterpart")
+            for n in extra for c in n.calls() if call_name(c) == "next")
     r.check(ok, "%s#cycle-over-list" % sp.qname, "cycle is not built over the supplied list / extra advances outside the random start", where(sp, sp.node))
 
     # ---- R6 producer wiring
